@@ -7,10 +7,14 @@ import c09 as G9          # generators / exact oracles shared with C09 (same dir
 
 ID = 'C10'
 COQ_FILES = ['Base/Mat.v', 'Base/SumQ.v', 'Model/Clustering.v', 'Proofs/ClusteringSpec.v', 'Proofs/Clustering.v',
-             'Proofs/ClusteringReduce.v', 'Properties/C10.v']
+             'Proofs/ClusteringReduce.v', 'Model/Distance.v', 'Model/EfficiencyLocal.v', 'Model/Assortativity.v',
+             'Proofs/ReduceDistance.v', 'Proofs/ReduceEfficiencyLocal.v', 'Proofs/ReduceAssortativity.v',
+             'Properties/C10.v']
 THEOREMS = ['C10_cc_wu_bin_eq_bu', 'C10_cc_wd_bin_eq_bd', 'C10_trans_wu_bin_eq_bu', 'C10_trans_wd_bin_eq_bd',
             'C10_cc_bd_sym_eq_bu', 'C10_cc_wd_sym_eq_wu', 'C10_trans_bd_sym_eq_bu', 'C10_trans_wd_sym_eq_wu',
-            'C10_cbrt_exact_ok_binary', 'C10_strengths_bin_eq_degrees', 'C10_in_out_deg_sym', 'C10_degrees_ignore_weights']
+            'C10_cbrt_exact_ok_binary', 'C10_strengths_bin_eq_degrees', 'C10_in_out_deg_sym', 'C10_degrees_ignore_weights',
+            'C10_distance_wei_bin_eq_bin', 'C10_efficiency_wei_bin_eq_bin', 'C10_efficiency_local_wei_bin_eq_bin',
+            'C10_efficiency_local_cbrt_exact', 'C10_assortativity_wei_bin_eq_bin', 'C10_assortativity_bin_ignores_weights']
 RULE = ('pairs of public functions evaluated on the same matrix: all undirected 0/1 graphs n<=4 (quick) / n<=5 (thorough), all '
         'digraphs n<=3 / n<=4, random 0/1 graphs and symmetric weighted graphs n<=8 (weights m^3/512), disconnected graphs, '
         'isolated nodes; weighted (directed and undirected, weights k/8 and >1) vs binarised input for the routines whose '
@@ -52,6 +56,34 @@ def brief(x):
     if isinstance(x, (tuple, list)):
         return [brief(y) for y in x]
     return np.asarray(x).tolist()
+
+
+def zrows(A):
+    return [[int(x) for x in row] for row in A]
+
+
+def dec_len_mat(m):
+    """matrix of option Q -> float array with inf"""
+    return np.array([[np.inf if x is None else float(dec_q(x)) for x in row] for row in m], dtype=float).reshape(len(m), len(m))
+
+
+def dec_ext(e):
+    return np.nan if e[0] == 0 else (np.inf if e[0] == 1 else float(dec_q(e[1])))
+
+
+def decode_model(kind, m):
+    """model output -> the shape of the implementation's return value (floats, inf, nan); None = non-finite scalar"""
+    if kind == 'vecq':                      # option (list Q)
+        return None if m is None else np.array([float(dec_q(x)) for x in m], dtype=float)
+    if kind == 'optq':                      # option Q (None = nan/inf)
+        return None if m is None else float(dec_q(m))
+    if kind == 'ext':                       # option ext
+        return None if m is None else dec_ext(m)
+    if kind == 'dbin':                      # option (matrix of option nat)
+        return None if m is None else np.array([[np.inf if x is None else float(x) for x in row] for row in m], dtype=float).reshape(len(m), len(m))
+    if kind == 'dwei':                      # option (matrix of option Q, matrix of nat)
+        return None if m is None else (dec_len_mat(m[0]), np.array(m[1], dtype=float).reshape(len(m[1]), len(m[1])))
+    raise ValueError(kind)
 
 
 class Pairs:
@@ -107,6 +139,43 @@ class Pairs:
     def model(self, fn, line, case, impl):
         self.lines.append(line); self.pend.append((fn, case, impl))
 
+    def corr(self, fn, kind, line, W, f):
+        """correspondence for the routines modelled in Model/Distance.v, EfficiencyLocal.v, Assortativity.v:
+        run the implementation now, queue the extracted model on the same input"""
+        A = G9.npm(W)
+        try:
+            with np.errstate(all='ignore'):
+                impl = call(f, A.copy())
+        except Exception as e:
+            return                           # raising inputs are reported by pair()/ignores()
+        self.ctx.count('model:' + fn)
+        self.lines.append(line); self.pend.append(('corr:' + kind + ':' + fn, {'fn': fn, 'W': G9.strs(W)}, impl))
+
+    def corr_binary(self, A, directed):
+        """0/1 input: both members of every proved pair are run against their models"""
+        bct = self.bct
+        Z = enc_mat(zrows(A)); Q = enc_mat(A, enc_q)
+        self.corr('distance_bin', 'dbin', 'dbin ' + Z, A, bct.distance_bin)
+        self.corr('distance_wei', 'dwei', 'dwei ' + Q, A, lambda M: tuple(bct.distance_wei(M)))
+        self.corr('efficiency_bin', 'ext', 'effbin ' + Z, A, bct.efficiency_bin)
+        self.corr('efficiency_wei', 'ext', 'effwei ' + Q, A, bct.efficiency_wei)
+        self.corr('efficiency_bin_local', 'vecq', 'eloc_bin ' + Z, A, lambda M: bct.efficiency_bin(M, True))
+        self.corr('efficiency_wei_local', 'vecq', 'eloc_wei ' + Q, A, lambda M: bct.efficiency_wei(M, True))
+        for fl in ((1, 2, 3, 4) if directed else (0,)):
+            self.corr('assortativity_bin', 'optq', 'assort %s 0 %d' % (Q, fl), A, lambda M, fl=fl: bct.assortativity_bin(M, fl))
+            self.corr('assortativity_wei', 'optq', 'assort %s 1 %d' % (Q, fl), A, lambda M, fl=fl: bct.assortativity_wei(M, fl))
+
+    def corr_weighted(self, W, directed, cubes):
+        """weighted input (cube weights m^3/512 when the cube root is involved): the weighted models and the
+        weight-ignoring assortativity_bin"""
+        bct = self.bct
+        Q = enc_mat(W, enc_q)
+        if cubes:
+            self.corr('efficiency_wei_local', 'vecq', 'eloc_wei ' + Q, W, lambda M: bct.efficiency_wei(M, True))
+        for fl in ((1, 2, 3, 4) if directed else (0,)):
+            self.corr('assortativity_bin', 'optq', 'assort %s 0 %d' % (Q, fl), W, lambda M, fl=fl: bct.assortativity_bin(M, fl))
+            self.corr('assortativity_wei', 'optq', 'assort %s 1 %d' % (Q, fl), W, lambda M, fl=fl: bct.assortativity_wei(M, fl))
+
     # ---------------------------------------------------------------- 0/1 input: weighted routine = binary routine
     def binary_any(self, A, family):
         bct = self.bct
@@ -124,6 +193,11 @@ class Pairs:
         s = self.pair('strengths_dir/degrees_dir', A, bct.strengths_dir, lambda M: bct.degrees_dir(M)[2], family)
         if s is not None:
             self.model('strengths_dir', 'deg ' + enc_mat(A, enc_q) + ' 5', {'fn': 'strengths_dir', 'W': G9.strs(A)}, s)
+        if self.ctx.evaluations % 2 == 0:
+            und = all(A[i][j] == A[j][i] for i in range(len(A)) for j in range(len(A)))
+            self.corr_binary(A, not und)
+            if und and self.ctx.evaluations % 4 == 0:
+                self.corr_binary(A, True)          # the directed flags on a symmetric matrix as well
 
     def binary_und(self, A, family):
         bct = self.bct
@@ -228,6 +302,9 @@ def run(ctx):
             Wu = G9.rand_und(r, n, dens, any_w)
             Wd = G9.rand_dir(r, n, dens * 0.7, any_w)
             P.ignore_weights(Wu, False, 'weighted_und'); P.ignore_weights(Wd, True, 'weighted_dir')
+            P.corr_weighted(Wu, False, False); P.corr_weighted(Wd, True, False)
+            P.corr_weighted(W, False, True)
+            P.corr_weighted(G9.rand_dir(r, n, dens * 0.7, G9.cube_w), True, True)
         # exhaustive tiny weighted for the ignores clause
         vals = [F(0), F(3, 8), F(5, 2)]
         cells3 = [(i, j) for i in range(3) for j in range(3) if i != j]
@@ -247,7 +324,20 @@ def run(ctx):
     for (fn, case, impl), m in zip(P.pend, res):
         if is_err(m):
             ctx.mismatch('model-error', m['error'], case); continue
-        if fn.startswith('transitivity'):
+        if fn.startswith('corr:'):
+            _, kind, name = fn.split(':', 2)
+            M = decode_model(kind, m)
+            if kind == 'optq':
+                ok = G9.sc_close(None if M is None else F(M).limit_denominator(10 ** 12) if False else M, impl)
+            elif M is None:
+                ok = False                     # the fuelled loop of the model did not return
+            elif kind == 'dwei':
+                ok = same(M[0], impl[0]) and same(M[1], impl[1])
+            else:
+                ok = same(M, impl)
+            if not ok:
+                ctx.mismatch(name, 'model and implementation differ', case, brief(M) if M is not None else None, brief(impl))
+        elif fn.startswith('transitivity'):
             M = None if m is None else dec_q(m)
             if not G9.sc_close(M, impl):
                 ctx.mismatch(fn, 'model and implementation differ', case, str(M), float(impl))
